@@ -84,3 +84,9 @@ def dec : Bytes → Option Bytes
 
 end B64
 end Mb
+
+namespace Mb
+/-- the names used in DESIGN.md -/
+abbrev b64enc := B64.enc
+abbrev b64dec := B64.dec
+end Mb
